@@ -168,3 +168,32 @@ func HarnessC11BlockingBatch() {
 		}
 	})
 }
+
+// HarnessC11Replace: persistent topic, subscriptions come and go: A subscribes, m1 is published and consumed, A is
+// cancelled and seen closed, C subscribes, m2 is published: C receives the replay (m1) and m2, each once.
+func HarnessC11Replace() {
+	g := NewGoChannel(Config{Persistent: true}, watermill.NopLogger{})
+	ctxA, cancelA := context.WithCancel(context.Background())
+	chA, err := g.Subscribe(ctxA, "t")
+	vrt.Assert(err == nil, "subscribe A")
+	m1, m2 := message.NewMessage("m1", nil), message.NewMessage("m2", nil)
+	vrt.Assert(g.Publish("t", m1) == nil, "first publish succeeds")
+	m := <-chA
+	m.Ack()
+	cancelA()
+	_, open := <-chA
+	vrt.Assert(!open, "the cancelled subscription's channel is closed")
+	chC, err := g.Subscribe(context.Background(), "t")
+	vrt.Assert(err == nil, "subscribe C")
+	vrt.Assert(g.Publish("t", m2) == nil, "second publish succeeds")
+	// the replay and the live delivery may arrive in either order (nothing promises an order between them)
+	x := <-chC
+	x.Ack()
+	y := <-chC // blocks for ever (reported as a deadlock) if C is not served
+	y.Ack()
+	vrt.Assert((x.UUID == "m1" && y.UUID == "m2") || (x.UUID == "m2" && y.UUID == "m1"), "a new subscription receives what was published before it and what is published after its Subscribe")
+	vrt.AtQuiescence(func() {
+		vrt.Assert(vrt.ChanLen(chC) == 0, "each exactly once")
+	})
+	vrt.Observe("done", true)
+}
